@@ -260,7 +260,9 @@ def main():
     maxL = 4 if not th else 7
     for L in range(1, maxL + 1):
         for pat in itertools.product((0, 1), repeat=L - 1):
-            tasks.append(('string', (40, tuple(pat) + (1,))))
+            # strings of more than four values only repeat independent single-value decodings (and cost 4^values paths)
+            if L <= 4 or sum(pat) + 1 <= 3:
+                tasks.append(('string', (40, tuple(pat) + (1,))))
     ar = (1, 4, 5)
     shapes = [((1,),), ((4,), (1,)), ((), (5, 4)), ((5,), (), (4,)), (), ((),)]      # incl. no line at all and one empty line
     if th:
@@ -316,7 +318,7 @@ def main():
         'functions_encoded': boot.func_fingerprint(vlq.encode_vlq, vlq.encode_vlqs, vlq.vlq_decoder, vlq.decode_vlq,
                                                    vlq.decode_vlqs, vlq.encode_mappings, vlq.decode_mappings),
         'bounds': {'single_int': '|i| < 2^%d (BV-%d with no-overflow obligations: results equal unbounded Python ints)' % (top, W),
-                   'lists': 'see tasks: (k elements, |x| < 2^bits)', 'canonical_strings': 'every length 1..%d, every continuation pattern' % maxL,
+                   'lists': 'see tasks: (k elements, |x| < 2^bits)', 'canonical_strings': 'every length 1..%d, every continuation pattern (length > 4: patterns of at most three values)' % maxL,
                    'mappings_shapes': len(shapes),
                    'outside': 'integers of larger magnitude, longer lists/strings, non-canonical input strings (only decode==reference is claimed for them inside the length bound)'},
         'queries': tot['z3_checks'], 'paths': tot['paths'], 'assertions_discharged': tot['assertions'],
